@@ -236,7 +236,7 @@ static void DecodeImm(Word Index) {
     if (ChkArgCnt(1, 1)) {
         Boolean      OK;
         tSymbolFlags Flags;
-        LongInt AdrLong = EvalStrIntExpressionWithFlags(&ArgStr[1], Int32, &OK, &Flags);
+        LargeInt AdrLong = EvalStrIntExpressionWithFlags(&ArgStr[1], Int32, &OK, &Flags);
 
         if (OK) {
             if (mFirstPassUnknown(Flags)) {
